@@ -876,6 +876,17 @@ func rulePull(c *Ctx) {
 				}
 			}
 		}
+		// a function between the handler and the refresh that starts the pull (`scheduleRefresh`: a flag test, then
+		// `go s.refresh()`) is judged like the refresh itself: its returns that are not preceded by the start
+		if len(pulls) == 0 && f != h {
+			for _, b := range f.Blocks {
+				for _, ins := range b.Instrs {
+					if starts(ins) {
+						pulls = append(pulls, ins)
+					}
+				}
+			}
+		}
 		if len(pulls) == 0 {
 			continue
 		}
